@@ -561,13 +561,31 @@ def warm_wcs_desc(rng, wd, keep_parity=False):
 
 
 def edit_wcs_inplace(w, d):
-    """bring an existing WCS object to the settings `d` (what a user does with `w.wcs.cdelt = …; w.wcs.set()`)."""
+    """bring an existing WCS object to the settings `d` (what a user does with `w.wcs.cdelt = …; w.wcs.set()`).
+    The derived native-pole entries LONPOLE / LATPOLE that `set()` filled in for the previous reference value are put back to
+    their "undefined" defaults (a new WCS has lonpole = nan, latpole = 90), otherwise wcslib keeps the stale pole (and fails
+    for a cylindrical projection whose reference latitude changes sign).  The edited object must then be the SAME
+    transformation as a WCS built from scratch with `d`: asserted field by field and on probe points."""
     w.wcs.crval = [d['lon0'], d['lat0']]
     w.wcs.crpix = list(d['crpix'])
     th = math.radians(d['rot'])
     w.wcs.cdelt = [-d['scale'] * d['parity'], d['scale']]
     w.wcs.pc = [[math.cos(th), -math.sin(th)], [math.sin(th), math.cos(th)]]
+    w.wcs.lonpole = float('nan')
+    w.wcs.latpole = 90.0
     w.wcs.set()
+    f = build_wcs(d)
+    same = (list(w.wcs.ctype) == list(f.wcs.ctype) and w.wcs.radesys == f.wcs.radesys
+            and np.array_equal(w.wcs.crval, f.wcs.crval) and np.array_equal(w.wcs.crpix, f.wcs.crpix)
+            and np.array_equal(w.wcs.cdelt, f.wcs.cdelt) and np.array_equal(w.wcs.pc, f.wcs.pc)
+            and w.wcs.lonpole == f.wcs.lonpole and w.wcs.latpole == f.wcs.latpole
+            and (w.wcs.equinox == f.wcs.equinox or (np.isnan(w.wcs.equinox) and np.isnan(f.wcs.equinox))))
+    cx, cy = d['crpix']
+    probes = np.array([[cx - 1, cy - 1], [cx + 36.5, cy - 80.25], [cx - 150.0, cy + 99.0], [cx + 7.0, cy + 250.0]])
+    a, b = w.wcs_pix2world(probes, 0), f.wcs_pix2world(probes, 0)
+    back_a, back_b = w.wcs_world2pix(a, 0), f.wcs_world2pix(b, 0)
+    if not (same and np.array_equal(a, b, equal_nan=True) and np.array_equal(back_a, back_b, equal_nan=True)):
+        raise AssertionError(f'harness: WCS edited in place differs from the WCS built from scratch: {d}')
 
 
 def _has_kind(d, kind):
